@@ -7,7 +7,7 @@ import shutil
 import tempfile
 import zlib
 
-KEY = "k"
+KEY = "10um_iso-2.5"
 NAMES = ["a", "d/b.x", "d/b.y"]
 CHUNKS = [[0, 2, 0, 2, 0, 1], [2, 3, 0, 2, 0, 1]]
 CFGS = [{"flat": f, "gzip": g} for f in (False, True) for g in (False, True)]
